@@ -158,6 +158,7 @@ theorem wfcN_level (S : NStore) (h : WFCN S) : LevelOkC S := by
 inductive ValCase (S : NStore) (E : Entry) : Prop where
   | plain (h : E.plain = true)
   | refused (h : notStore S.pol E.content = true)
+  | exthdr (h : E.ext.isSome = true) (hnd : ∀ a nx b, E ≠ .dead a nx b)
   | nested (n : NStore) (hn : n ∈ S.subs) (hc : E.content = n.ser) (hv : E.value = n.ser) (hx : E.ext = none)
       (hpol : n.pol = S.pol) (hnd : ∀ a nx b, E ≠ .dead a nx b)
 
@@ -174,8 +175,9 @@ theorem valCase_of_level (S : NStore) (hl : LevelOk S) (E : Entry) (hE : E ∈ S
     cases v with
     | raw b =>
       simp only [NEntry.valueOk, valueOk, Bool.or_eq_true] at hv
-      rcases hv with hv | hv
+      rcases hv with (hv | hv) | hv
       · exact .plain (by simpa [NEntry.flat, Entry.plain, Entry.content, NValue.bytes] using hv)
+      · exact .exthdr (by simpa [NEntry.flat, Entry.ext] using hv) (by intro a nx' b' hh; cases hh)
       · exact .refused (by simpa [NEntry.flat, Entry.content, NValue.bytes] using hv)
     | store n =>
       simp only [NEntry.valueOk, valueOk, Bool.and_eq_true, Option.isNone_iff_eq_none, beq_iff_eq] at hv
@@ -188,8 +190,9 @@ theorem valCase_of_level (S : NStore) (hl : LevelOk S) (E : Entry) (hE : E ∈ S
     cases v with
     | raw b =>
       simp only [NEntry.valueOk, valueOk, Bool.or_eq_true] at hv
-      rcases hv with hv | hv
+      rcases hv with (hv | hv) | hv
       · exact .plain (by simpa [NEntry.flat, Entry.plain, Entry.content, NValue.bytes] using hv)
+      · exact .exthdr (by simpa [NEntry.flat, Entry.ext] using hv) (by intro a nx' b' hh; cases hh)
       · exact .refused (by simpa [NEntry.flat, Entry.content, NValue.bytes] using hv)
     | store n =>
       simp only [NEntry.valueOk, valueOk, Bool.and_eq_true, Option.isNone_iff_eq_none, beq_iff_eq] at hv
@@ -198,6 +201,29 @@ theorem valCase_of_level (S : NStore) (hl : LevelOk S) (E : Entry) (hE : E ∈ S
       refine .nested n (List.mem_filterMap.2 ⟨_, he, rfl⟩) ?_ rfl rfl hp ?_
       · simp [NEntry.flat, Entry.content, NValue.bytes, extSer, NStore.ser]
       · intro a nx' b hh; cases hh
+
+/-- the extended-header attribute of a well-formed live entry says whether it has such a header -/
+theorem entry_extbit (e : Entry) (k : Nat) (hok : e.ok k = true) (hnd : ∀ a nx b, e ≠ .dead a nx b) :
+    hasBit e.attrs aExtHdr = e.ext.isSome := by
+  cases e with
+  | dead a nx b => exact absurd rfl (hnd a nx b)
+  | var f g n v x nx =>
+    simp only [Entry.ok, Bool.and_eq_true, decide_eq_true_eq] at hok
+    obtain ⟨_, ⟨⟨⟨⟨hf, _⟩, _⟩, _⟩, _⟩⟩ := hok
+    exact (var_bits f g n v x nx hf).2.2.2.2.2.1
+  | data f v x nx =>
+    simp only [Entry.ok, Bool.and_eq_true, decide_eq_true_eq] at hok
+    obtain ⟨_, ⟨hf, _⟩, _⟩ := hok
+    exact (data_bits f v x nx hf).2.2.2.1
+
+/-- an entry with an extended header: fiano does not look for a store in its content
+    (fixes/C10-nested-ext-header.diff) -/
+theorem nestedOf_exthdr (pol : Nat) (guids : List Bytes) (r : Row) (k : Nat) (hok : r.entry.ok k = true)
+    (hnd : ∀ a nx b, r.entry ≠ .dead a nx b) (hx : r.entry.ext.isSome = true) :
+    nestedOf pol (expectNVar pol guids r) = none := by
+  unfold nestedOf
+  rw [expect_attrs, entry_extbit r.entry k hok hnd, hx]
+  simp
 
 /-- a content fiano does not take for a store: the parsed entry carries no nested store -/
 theorem nestedOf_opaque (pol : Nat) (guids : List Bytes) (r : Row) (h : notStore pol r.entry.content = true) :
